@@ -265,6 +265,7 @@ HARNESSES = [
     Harness("C08.moment_purity", moment_purity, functions=_ALL, assumptions=_A, params={"quick": [{"n": 3}], "thorough": [{"n": 5}]}),
     Harness("C08.hist", hist, functions=_ALL, assumptions=["histories start from the constructor; operation arguments symbolic"],
             opts={"ob_timeout": 20.0, "max_paths": 300}, budget={"quick": 120.0, "thorough": 900.0}, validate=1,
-            params={"quick": [{"seq": ["add", "adjust"]}, {"seq": ["update", "adjust", "add"]}, {"seq": ["backup", "add", "revert"]}],
+            params={"quick": [{"seq": ["add", "adjust"]}, {"seq": ["update", "adjust", "add"]}, {"seq": ["backup", "add", "revert"]}, {"seq": ["backup", "change", "revert"]},
+                              {"seq": ["backup", "reset", "revert"]}],
                     "thorough": [{"seq": s} for s in _seqs3[::5]]}),
 ]
